@@ -234,7 +234,7 @@ Qed.
 
 Lemma bound_invs_unbound P P' : p_fluents P' = map unbound (p_fluents P) -> bound_invs P' = [].
 Proof.
-  intros H. unfold bound_invs. rewrite H. induction (p_fluents P) as [|fd fl IH]; [reflexivity|].
+  intros H. unfold bound_invs. rewrite H. clear H. induction (p_fluents P) as [|fd fl IH]; [reflexivity|].
   cbn [map flat_map]. rewrite IH, app_nil_r. unfold unbound. cbn [fd_ty fd_id fd_sig].
   destruct (fd_ty fd); try reflexivity.
   induction (arg_tuples P' (fd_sig fd)) as [|a l IHl]; [reflexivity|]. cbn [flat_map app]. exact IHl.
